@@ -621,6 +621,8 @@ pub fn c09(tier: Tier) -> ! {
         vec!["--replications", "12", "--steps", "60", "--inner-steps", "20", "p2", "polygon", "--sides", "4"],
         vec!["--replications", "10", "--steps", "40", "--inner-steps", "10", "--potential", "LJ", "p2mg", "trimer"],
         vec!["--replications", "7", "--steps", "40", "--inner-steps", "10", "--potential", "LJ", "p1", "trimer"],
+        // long enough for a tiling shape to come within a thousandth of a perfect packing
+        vec!["--replications", "3", "--steps", "10000", "--max-step-size", "0.05", "p2", "polygon", "--sides", "4"],
     ]
     .iter()
     {
@@ -683,6 +685,40 @@ pub fn c09(tier: Tier) -> ! {
         }
     }
     run.set("optimised_states_cloned_and_compared", clones);
+    // (3d) one built optimiser used again: its second run is the run of a fresh optimiser with
+    // the same settings (short loops on a jammed state, so the step adaptation has work to do)
+    let mut reuse = 0u64;
+    {
+        fn twice<S: State>(first: &S, second: &S, b: &BuildOptimiser) -> (String, String) {
+            let opt = b.build();
+            let _ = opt.optimise_state(first.clone());
+            let used = serde_json::to_string(&opt.optimise_state(second.clone())).unwrap_or_default();
+            let fresh = serde_json::to_string(&b.build().optimise_state(second.clone())).unwrap_or_default();
+            (used, fresh)
+        }
+        for (label, init) in clone_pool.iter() {
+            for seed in 0..tier.pick(3u64, 10u64) {
+                let (a, bst) = match (crate::rsx::dense_start(init, 400, seed), crate::rsx::dense_start(init, 150, seed + 100)) {
+                    (Some(x), Some(y)) => (x, y),
+                    _ => continue,
+                };
+                let mut b = BuildOptimiser::default();
+                b.steps(600).inner_steps(5).kt_start(0.).kt_ratio(Some(0.)).max_step_size(0.05).seed(seed);
+                reuse += 1;
+                let (used, fresh) = match (&a, &bst) {
+                    (AnyState::Poly(x), AnyState::Poly(y)) => twice(x, y, &b),
+                    (AnyState::Mol(x), AnyState::Mol(y)) => twice(x, y, &b),
+                    (AnyState::Lj(x), AnyState::Lj(y)) => twice(x, y, &b),
+                    _ => continue,
+                };
+                if used != fresh {
+                    run.fail(None, &format!("{} (seed {}): the second run of a built optimiser differs from the run of a fresh optimiser with the same settings: the result depends on what the object optimised before", label, seed), json!({"engine": "reuse", "what": label, "seed": seed}));
+                    break;
+                }
+            }
+        }
+    }
+    run.set("optimiser_objects_used_twice", reuse);
     // (4) thorough tier: the same bodies free-running under Miri's data-race detector (run by
     // the driver script, result handed over in the environment)
     if tier == Tier::Thorough {
